@@ -93,7 +93,7 @@ def judge_c12(d):
 
 
 PROPS["C12"] = {
-    "lean_modules": ["P2.Props.C12", "P2.Props.C12b"],
+    "lean_modules": ["P2.Props.C12", "P2.Props.C12b", "P2.Props.C12c"],
     "audit_module": "P2.Audit.C12",
     "harness_prop": "c12",
     "profile": "release",
@@ -101,12 +101,13 @@ PROPS["C12"] = {
     "trusted_base": KERNEL_TB + [
         "modelled, not verified: merkle_tree.rs / merkle_proofs.rs control flow transcribed by hand (P2/Model/Merkle.lean), rayon joins as sequential recursion, MaybeUninit buffers as lists",
         "hash functions are parameters of the theorems; collision-freeness appears only as an explicit disjunct (a returned collision witness)",
-        "thread schedules: runtime fact, exercised with rayon pools of 1/2/16 threads (partial); Keccak hasher and batch trees not modelled yet (partial)",
+        "thread schedules: runtime fact, exercised with rayon pools of 1/2/16 threads (partial)",
+        "Keccak: Keccak-f[1600] / keccak256 / KeccakHash<N> (hash_no_pad, two_to_one, hash_or_noop, BytesHash::to_vec, the permutation 'onion' with rejection sampling) and batch Merkle trees (batch_merkle_tree.rs, verify_batch_merkle_proof_to_cap) transcribed by hand (P2/Model/Keccak.lean, BatchMerkle.lean); the harness uses the keccak-hash crate (same version as plonky2) for raw Keccak-256 on byte strings",
     ],
-    "level_text": "Lean 4 theorems for every tree height, cap height, position and abstract hasher: binding of verification (two accepted openings at one position of one cap entry coincide or exhibit an explicit hash collision), completeness of prove/verify and cap = level-by-level hashing on the model; model tied to MerkleTree::new / prove / verify_merkle_proof_to_cap by correspondence incl. negative requests and panics",
+    "level_text": "(Keccak hasher and batch Merkle trees included: theorems C12c for any hasher and embedding to_vec — verifyBatch on one matrix = verifyToCap, batch openings bind rows and siblings or exhibit a collision (EmbedsTwo discharged for sponge hashers and for KeccakHash<N>), completeness for two matrices of different heights) Lean 4 theorems for every tree height, cap height, position and abstract hasher: binding of verification (two accepted openings at one position of one cap entry coincide or exhibit an explicit hash collision), completeness of prove/verify and cap = level-by-level hashing on the model; model tied to MerkleTree::new / prove / verify_merkle_proof_to_cap by correspondence incl. negative requests and panics",
     "level_note": "Trusted: Lean kernel, standard axioms, hand transcription tied by differential correspondence (digest buffer layout, caps, proofs, verdict classes OK/ERR/PANIC). Thread interleavings of the MaybeUninit fill cannot be exhibited by the model (partial).",
     "assumptions": [],
-    "rule": "trees for k=0..6 (thorough 9), every cap height, widths shorter/longer than a digest, all or sampled positions, 8 negative request classes per position; distinct = distinct request lines",
+    "rule": "Keccak: every input length 0..300 + block boundaries, KeccakHash<25/32> on widths around the no-op boundary, permutation states incl. rejection-sampling corpus, Keccak trees under 1/2/16 threads with 9 negative classes; batch trees: 23 shapes (1-4 matrices, heights 2^0..2^6) x cap heights x Poseidon/Keccak with 15 negative classes; trees for k=0..6 (thorough 9), every cap height, widths shorter/longer than a digest, all or sampled positions, 8 negative request classes per position; distinct = distinct request lines",
 }
 
 def judge_c15(d):
@@ -492,29 +493,29 @@ def judge_stark(d):
 
 
 PROPS["C09"] = {
-    "lean_modules": ["P2.Props.C09"],
+    "lean_modules": ["P2.Props.C09", "P2.Props.C09b", "P2.Props.C09c"],
     "audit_module": "P2.Audit.C09",
     "harness_prop": "c09",
     "profile": "release",
     "judge": judge_stark,
     "trusted_base": STARK_TB,
-    "level_text": "Lean 4 model of the complete STARK verifier (degree recovery, FRI parameters for all three reduction strategies, full challenge derivation incl. both transcript padding modes, L_0/L_last, constraint consumer, quotient identity, FRI instance, FRI verifier) and of what 'the trace satisfies the AIR' means row by row; theorems: the constraint consumer is one Horner accumulator per challenge (every constraint value enters with its own power of alpha), satisfied <-> every active constraint is zero on every row (transitions skip the wrap-around row), wrong public-input count and a quotient commitment whose presence does not match the AIR fail shape validation (F-C09-2 as repaired); tied to starky by exact agreement of verdicts and of every challenge on honest proofs, on proofs of corrupted traces, on per-element tampering / list surgery / option toggling of accepted proofs and on forged proofs (dishonest prover without quotient commitment), plus the property's oracle on the implementation: satisfying trace => proof accepted, violating trace (single-cell corruption in first / last / interior / wrap-around rows, wrong public inputs) => no accepted proof, at standard strength every tampered proof rejected",
+    "level_text": "Lean 4 model of the complete STARK verifier (degree recovery, FRI parameters for all three reduction strategies, full challenge derivation incl. both transcript padding modes, L_0/L_last, constraint consumer, quotient identity, FRI instance, FRI verifier) and of what 'the trace satisfies the AIR' means row by row; theorems: Stark.verify accepts IFF public-input count, degree recovery, every shape fact (validateShape_accept_iff: all opening-list lengths, quotient commitment AND quotient openings present iff the AIR has quotient polynomials, ctl_zs_first present iff CTLs, auxiliary data iff lookups/CTLs), the quotient identity for every chunk and FRI acceptance hold (verifyWithChallenges_accept_iff / verify_accept_iff); the constraint consumer is one Horner accumulator per challenge = sum c_i*alpha^(n-1-i) and over a field it vanishes for more than n-1 alphas only if every constraint value is zero (C09b); L_0 / L_last / z_last are the Lagrange selectors of the first and last row (C09b); satisfied <-> every active constraint is zero on every row (transitions skip the wrap-around row); transcript order and injectivity for the STARK challenger incl. the inside of fri_challenges (C09c: trace cap before lookup challenges, auxiliary cap before alphas, quotient cap before zeta, openings before FRI alpha, each commit cap before its beta, final polynomial and pow witness before the pow response and the query indices); no-panic: after shape validation no panic point is reachable for AIRs without lookups (…_partial), the panics BEFORE shape validation are characterised exactly (recoverDegreeBits_error_iff = known finding F-C18-3a); tied to starky by exact agreement of verdicts and of every challenge on honest proofs, on proofs of corrupted traces, on per-element tampering / list surgery / option toggling of accepted proofs and on forged proofs (dishonest prover without quotient commitment), plus the property's oracle on the implementation: satisfying trace => proof accepted, violating trace (single-cell corruption in first / last / interior / wrap-around rows, wrong public inputs) => no accepted proof, at standard strength every tampered proof rejected",
     "level_note": "Found and repaired in /repo with this machinery: F-C09-2 (forged proofs accepted: missing quotient commitment allowed), F-C09-1 (ctl_zs_first None/Some([]) malleability), F-C09-3 (Fixed schedule longer than the degree: honest proof rejected). The prover is not modelled (implementation oracle only).",
     "assumptions": ["FRI proximity soundness", "random oracle", "collision resistance"],
     "rule": "AIRs: fibonacci / permutation / unconstrained + generated (1..8 columns, degree 0..3, with/without public inputs, first/last/transition/unconditional constraints) x trace lengths 2^1..2^8 x StarkConfig (rate 1..3, cap height 0..4, grinding, 2..6 queries, Fixed / ConstantArityBits / MinSize, padded transcripts) + one standard-strength instance; corruptions: 5 row classes x columns, wrong public inputs, row exchange; tampering: every class of JSON leaf, 3 surgeries per array class, option toggles, public inputs, other transcript mode; forgery per instance; distinct = distinct request lines",
 }
 
 PROPS["C10"] = {
-    "lean_modules": ["P2.Props.C09"],
-    "audit_module": "P2.Audit.C09",
+    "lean_modules": ["P2.Props.C10", "P2.Props.C10b", "P2.Props.C09"],
+    "audit_module": "P2.Audit.C10",
     "harness_prop": "c10",
     "profile": "release",
     "judge": judge_stark,
     "trusted_base": STARK_TB + [
         "multi-table glue: starky ships no multi-table verifier, so harness/src/c10.rs mod ctl composes get_ctl_data / prove_with_commitment / CtlCheckVars::from_proof / verify_stark_proof_with_challenges / verify_cross_table_lookups the way the documented consumer does, and Stark.verifyMulti mirrors that glue",
     ],
-    "level_text": "Lean 4 model of the STARK verifier with column lookups (helper columns, Z running sum, first-row and wrap-around constraints) and cross-table lookups (CtlCheckVars::from_proof, eval_cross_table_lookup_checks, verify_cross_table_lookups, multi-table verifier) and of the MEANING of a lookup / cross-table lookup on traces as weighted multisets (Air.firstBadLookup, CtlSpec.holds); theorems (shared with C09): consumer algebra, row semantics, shape validation facts; tied to starky by exact agreement of verdicts/challenges on honest and tampered single- and multi-table proofs and of the multiset semantics with the harness's evaluator; implementation oracle: lookups hold on the trace => proof accepted, a single missing / extra / altered value on the looking side, the table, the frequencies, a filter, a helper or running-sum opening => no accepted proof",
-    "level_note": "Found with this machinery: F-C10-2 (next-row terms of table/frequencies columns ignored by the constraints: honest proof rejected; repaired in /repo), F-C10-1 (lookups with constraint_degree 0 are never enforced; known finding, not a small repair). Lookup-specific theorems (multiset weights, logUp algebra) are being added.",
+    "level_text": "Lean 4 model of the STARK verifier with column lookups (helper columns, Z running sum, first-row and wrap-around constraints) and cross-table lookups (CtlCheckVars::from_proof, eval_cross_table_lookup_checks, verify_cross_table_lookups, multi-table verifier) and of the MEANING of a lookup / cross-table lookup on traces as weighted multisets (Air.firstBadLookup, CtlSpec.holds); theorems: Air.firstBadLookup = none IFF for every value v the filter-weighted number of looking occurrences equals the frequency-weighted number of table occurrences (firstBadLookup_none_iff_sums; weights in GL, i.e. mod p), CtlSpec.holds IFF the weighted multisets of tuples agree (holds_iff_sums); logUp algebra over any field (C10b): the helper-column constraint pins h = f1/(x+a) + f2/(y+a), the running-sum constraint on a cyclic domain telescopes to sum(helpers - freq/(t+a)) = 0, tied to the model's evalHelperColumns / evalLookups terms; plus the C09 verifier theorems (acceptance decomposition, shape facts); tied to starky by exact agreement of verdicts/challenges on honest and tampered single- and multi-table proofs and of the multiset semantics with the harness's evaluator; implementation oracle: lookups hold on the trace => proof accepted, a single missing / extra / altered value on the looking side, the table, the frequencies, a filter, a helper or running-sum opening => no accepted proof",
+    "level_note": "Found with this machinery: F-C10-2 (next-row terms of table/frequencies columns ignored by the constraints: honest proof rejected; repaired in /repo), F-C10-1 (lookups with constraint_degree 0 are never enforced; known finding, not a small repair).",
     "assumptions": ["FRI proximity soundness", "random oracle", "collision resistance", "logUp soundness over the challenge space (Schwartz-Zippel)"],
     "rule": "column lookups: 1..4 looking columns, single / linear-combination / next-row / combined column forms, 5 filter kinds, degree 2 and 3, corruptions of looking side, table, frequencies, filters, noise cells; cross-table lookups: 2- and 3-table systems, a table looking twice, linear and next-row columns, product filters, 6 corruption kinds on either side, tampering of auxiliary cap/openings; distinct = distinct request lines",
 }
